@@ -102,6 +102,22 @@ def _copy_python_data(source, dest):
             if hasattr(vv, "_xobject") and hasattr(dest.__dict__[kk], "_xobject"):
                 _copy_python_data(source=vv, dest=dest.__dict__[kk])
             continue
+        if kk.startswith("_dressed_") and hasattr(vv, "_xobject"):
+            # dressed target of a reference: it is shared only if the
+            # reference of dest designates that very object; after a copy
+            # into another buffer dest refers to a duplicate of its own
+            target = getattr(dest._xobject, kk[len("_dressed_") :], None)
+            if target is None:
+                continue
+            if (
+                target._buffer is not vv._xobject._buffer
+                or target._offset != vv._xobject._offset
+            ):
+                dressed_target = vv.__class__(_xobject=target)
+                dressed_target._movable = False
+                _copy_python_data(source=vv, dest=dressed_target)
+                dest.__dict__[kk] = dressed_target
+                continue
         dest.__dict__[kk] = vv
 
 
